@@ -6,13 +6,6 @@ From RichModel Require Import Prelude Cells Syntax.
 
 Definition blank (s : str) : bool := forallb is_sp s.
 
-(* with indent guides the leading run of spaces and guide characters is compared as spaces *)
-Fixpoint gnorm (s : str) : str :=
-  match s with
-  | c :: r => if is_sp c || (c =? GUIDE) then SP :: gnorm r else s
-  | [] => []
-  end.
-
 (* the lines the property speaks of: the tab-expanded source split at "\n" *)
 Definition source_lines (o : opts) (code : str) : list str :=
   split_nl (expandtabs (o_tab_size o) code).
@@ -42,6 +35,21 @@ Definition crop_ok_b (e : str) (w : Z) (b : str) : bool :=
                          (w - 1 <=? cell_len p) && (cell_len p <=? w)
                          && str_eqb (rstrip_sp b) (rstrip_sp p))
                (seq 0 (S (length e))).
+(* Indent guides.  "Highlighting never changes the characters of the code": a guide character may
+   stand only where the source line has an ASCII space of its leading indentation; every other
+   character of the line -- any other whitespace (U+00A0, U+2003, the wide U+3000 ...) included --
+   must be displayed as it is.  A source line that is blank (ASCII spaces only, or empty) carries no
+   character of the code: there the guides may be continued, nothing else may appear. *)
+Fixpoint unguide (e b : str) : str :=
+  match e, b with
+  | ce :: e', cb :: b' =>
+      if is_sp ce && (is_sp cb || (cb =? GUIDE)) then SP :: unguide e' b' else b
+  | _, _ => b
+  end.
+Definition guide_chars_only (b : str) : bool := forallb (fun c => is_sp c || (c =? GUIDE)) b.
+Definition guide_line_ok_b (e : str) (w : Z) (b : str) : bool :=
+  if blank e then guide_chars_only b else crop_ok_b e w (unguide e b).
+
 (* the contract of Text.wrap (property C02) as far as C17 needs it: the non-space characters of
    the produced lines are those of the source line, in order, and every produced line fits *)
 Definition wrap_ok_b (e : str) (w : Z) (bs : list str) : bool :=
@@ -55,7 +63,7 @@ Definition body_ok_b (ww guides : bool) (e : str) (w : Z) (bs : list str) : bool
       str_eqb (nonspace (ng (concat bs))) (nonspace (ng e))
       && forallb (fun b => cell_len (rstrip_sp b) <=? w) bs
       && negb (match bs with [] => true | _ => false end)
-    else match bs with [b] => crop_ok_b (gnorm e) w (gnorm b) | _ => false end
+    else match bs with [b] => guide_line_ok_b e w b | _ => false end
   else if ww then wrap_ok_b e w bs else match bs with [b] => crop_ok_b e w b | _ => false end.
 
 Section Check.
@@ -156,7 +164,7 @@ Definition failing_line_b (code : str) (lineno avail : Z) (guides : bool) (out :
       (1 <=? lineno) &&
       match filter (fun l => str_eqb (firstn 2 (gut gw l)) POINTER) out with
       | [l] => str_eqb (skipn 2 (gut gw l)) (num_field gw lineno)
-               && (if guides then crop_ok_b (gnorm e) w (gnorm (body gw l)) else crop_ok_b e w (body gw l))
+               && (if guides then guide_line_ok_b e w (body gw l) else crop_ok_b e w (body gw l))
       | _ => false
       end
   end.
